@@ -59,10 +59,9 @@ def letterV : Verdict → Byte
   | .K => cK | .Z => cZ | .D => cD | .lost _ => cZ
 
 theorem good_quit (a : Args) (wf : Option WPoint) (rs : List Bytes) (w pre app txt : Bytes) (v : Verdict)
-    (hq : wf ≠ some .quit) (hne : pre ≠ []) (hv : headB pre = letterV v) (hnl : ∀ c, v ≠ .lost c) :
+    (hne : pre ≠ []) (hv : headB pre = letterV v) (hnl : ∀ c, v ≠ .lost c) :
     Good ⟨rs.map headB, v⟩ (quitWith a wf rs w pre app txt) := by
   unfold quitWith
-  simp only [hq, if_false]
   have : headB (pre ++ a.host ++ app ++ lit ".\n" ++ said txt) = letterV v := by
     simp only [List.append_assoc]; rw [headB_append _ _ hne, hv]
   cases v with
@@ -81,7 +80,7 @@ theorem good_msg (rs : List Bytes) (m w : Bytes) (wo : Bool) (v : Verdict) (hv :
   | lost c => exact absurd rfl (hnl c)
 
 /-- `smtp()` from DATA on realises `expData` -/
-theorem data_good (a : Args) (wf : Option WPoint) (hq : wf ≠ some .quit) (cs0 : List Nat) (rs : List Bytes) (w : Bytes) (bother : Bool)
+theorem data_good (a : Args) (wf : Option WPoint) (cs0 : List Nat) (rs : List Bytes) (w : Bytes) (bother : Bool)
     (txt : Bytes) (fs : List Bytes) :
     Good (expData { codes := cs0, n := a.rcpts.length, msgErr := a.msgErr, msgPartial := (rblast a.msg).isNone, wfail := wf }
             (rs.map headB) bother (fs.map codeNat))
@@ -89,7 +88,7 @@ theorem data_good (a : Args) (wf : Option WPoint) (hq : wf ≠ some .quit) (cs0 
   unfold expData dataPhase
   by_cases hb : bother = false
   · simp only [hb, if_true]
-    exact good_quit a wf rs w _ _ _ .D hq (by decide) (by decide) (by intro c; simp)
+    exact good_quit a wf rs w _ _ _ .D (by decide) (by decide) (by intro c; simp)
   · simp only [hb, if_false]
     by_cases hw : wf = some .data
     · simp only [hw, if_true]; exact good_lost a rs w false false
@@ -100,11 +99,11 @@ theorem data_good (a : Args) (wf : Option WPoint) (hq : wf ≠ some .quit) (cs0 
         simp only [List.map_cons]
         by_cases h5 : codeNat d ≥ 500
         · simp only [h5, if_true]
-          exact good_quit a wf rs _ _ _ _ .D hq (by decide) (by decide) (by intro c; simp)
+          exact good_quit a wf rs _ _ _ _ .D (by decide) (by decide) (by intro c; simp)
         · simp only [h5, if_false]
           by_cases h4 : codeNat d ≥ 400
           · simp only [h4, if_true]
-            exact good_quit a wf rs _ _ _ _ .Z hq (by decide) (by decide) (by intro c; simp)
+            exact good_quit a wf rs _ _ _ _ .Z (by decide) (by decide) (by intro c; simp)
           · simp only [h4, if_false]
             by_cases hwb : wf = some .body
             · simp only [hwb, if_true]; exact good_lost a rs _ false true
@@ -128,16 +127,16 @@ theorem data_good (a : Args) (wf : Option WPoint) (hq : wf ≠ some .quit) (cs0 
                       simp only [List.map_cons]
                       by_cases g5 : codeNat f ≥ 500
                       · simp only [g5, if_true]
-                        exact good_quit a wf rs _ _ _ _ .D hq (by decide) (by decide) (by intro c; simp)
+                        exact good_quit a wf rs _ _ _ _ .D (by decide) (by decide) (by intro c; simp)
                       · simp only [g5, if_false]
                         by_cases g4 : codeNat f ≥ 400
                         · simp only [g4, if_true]
-                          exact good_quit a wf rs _ _ _ _ .Z hq (by decide) (by decide) (by intro c; simp)
+                          exact good_quit a wf rs _ _ _ _ .Z (by decide) (by decide) (by intro c; simp)
                         · simp only [g4, if_false]
-                          exact good_quit a wf rs _ _ _ _ .K hq (by decide) (by decide) (by intro c; simp)
+                          exact good_quit a wf rs _ _ _ _ .K (by decide) (by decide) (by intro c; simp)
 
 /-- the RCPT loop realises `expRcpt` -/
-theorem rcpt_good (a : Args) (wf : Option WPoint) (hq : wf ≠ some .quit) (cs0 : List Nat) (n0 : Nat) (more : List Bytes) :
+theorem rcpt_good (a : Args) (wf : Option WPoint) (cs0 : List Nat) (n0 : Nat) (more : List Bytes) :
     ∀ (i : Nat) (rs : List Bytes) (w : Bytes) (bother : Bool) (txt : Bytes) (fs : List Bytes),
     Good (expRcpt { codes := cs0, n := n0, msgErr := a.msgErr, msgPartial := (rblast a.msg).isNone, wfail := wf }
             i more.length (rs.map headB) bother (fs.map codeNat))
@@ -146,7 +145,7 @@ theorem rcpt_good (a : Args) (wf : Option WPoint) (hq : wf ≠ some .quit) (cs0 
   | nil =>
     intro i rs w bother txt fs
     simp only [List.length_nil, expRcpt, rcptLoop]
-    have := data_good a wf hq cs0 rs w bother txt fs
+    have := data_good a wf cs0 rs w bother txt fs
     unfold expData at this ⊢
     exact this
   | cons r more ih =>
@@ -173,7 +172,7 @@ theorem rcpt_good (a : Args) (wf : Option WPoint) (hq : wf ≠ some .quit) (cs0 
             simpa [headB] using this
 
 /-- **the model of `smtp()` realises the class rules** -/
-theorem run_good (a : Args) (wf : Option WPoint) (hq : wf ≠ some .quit) (fs : List Bytes) :
+theorem run_good (a : Args) (wf : Option WPoint) (fs : List Bytes) :
     Good (expect (abstrF a wf fs)) (run a wf fs) := by
   unfold expect run abstrF
   cases fs with
@@ -182,7 +181,7 @@ theorem run_good (a : Args) (wf : Option WPoint) (hq : wf ≠ some .quit) (fs : 
     simp only [List.map_cons]
     by_cases hg : codeNat g ≠ 220
     · simp only [hg, if_true, ne_eq, not_false_eq_true]
-      exact good_quit a wf [] _ _ _ _ .Z hq (by decide) (by decide) (by intro c; simp)
+      exact good_quit a wf [] _ _ _ _ .Z (by decide) (by decide) (by intro c; simp)
     · simp only [hg, if_false, ne_eq]
       by_cases hw : wf = some .helo
       · simp only [hw, if_true]; exact good_lost a [] _ false false
@@ -193,7 +192,7 @@ theorem run_good (a : Args) (wf : Option WPoint) (hq : wf ≠ some .quit) (fs : 
           simp only [List.map_cons]
           by_cases hh : codeNat h ≠ 250
           · simp only [hh, if_true, ne_eq, not_false_eq_true]
-            exact good_quit a wf [] _ _ _ _ .Z hq (by decide) (by decide) (by intro c; simp)
+            exact good_quit a wf [] _ _ _ _ .Z (by decide) (by decide) (by intro c; simp)
           · simp only [hh, if_false, ne_eq]
             by_cases hwm : wf = some .mail
             · simp only [hwm, if_true]; exact good_lost a [] _ false false
@@ -204,13 +203,13 @@ theorem run_good (a : Args) (wf : Option WPoint) (hq : wf ≠ some .quit) (fs : 
                 simp only [List.map_cons]
                 by_cases h5 : codeNat m ≥ 500
                 · simp only [h5, if_true]
-                  exact good_quit a wf [] _ _ _ _ .D hq (by decide) (by decide) (by intro c; simp)
+                  exact good_quit a wf [] _ _ _ _ .D (by decide) (by decide) (by intro c; simp)
                 · simp only [h5, if_false]
                   by_cases h4 : codeNat m ≥ 400
                   · simp only [h4, if_true]
-                    exact good_quit a wf [] _ _ _ _ .Z hq (by decide) (by decide) (by intro c; simp)
+                    exact good_quit a wf [] _ _ _ _ .Z (by decide) (by decide) (by intro c; simp)
                   · simp only [h4, if_false]
-                    exact rcpt_good a wf hq _ _ a.rcpts 0 [] _ false _ fs
+                    exact rcpt_good a wf _ _ a.rcpts 0 [] _ false _ fs
 
 /-! ### consequences of the class rules (pure reasoning about `expect`) -/
 
@@ -516,30 +515,27 @@ theorem headB_dropped (h : Bytes) (c : Bool) : headB (droppedRep h c) = cZ := by
   unfold droppedRep; simp only [List.append_assoc]; rw [headB_append _ _ (by decide)]; decide
 
 /-- `r` = the run in which the QUIT write fails, `r0` = the same run with it succeeding: the same
-recipient reports; if `r0` says QUIT, `r` prints the unflagged "connection died" instead of the verdict
-and the server does not get the QUIT; otherwise nothing differs -/
-def QuitRel (a : Args) (r0 r : Res) : Prop :=
-  r.rcpt = r0.rcpt ∧
-  (if r0.quit = true then
-     r.msg = droppedRep a.host false ∧ r0.wire = r.wire ++ quitCmd ∧ r.quit = false ∧ r.wireOpen = false ∧ r0.wireOpen = false
-   else r = r0)
+reports, recipient and message; the only difference is that the server does not get the QUIT -/
+def QuitRel (r0 r : Res) : Prop :=
+  r.rcpt = r0.rcpt ∧ r.msg = r0.msg ∧ r.quit = r0.quit ∧ r.wireOpen = r0.wireOpen ∧
+  (if r0.quit = true then r0.wire = r.wire ++ quitCmd else r.wire = r0.wire)
 
 theorem quitRel_quit (a : Args) (rs : List Bytes) (w pre app txt : Bytes) :
-    QuitRel a (quitWith a none rs w pre app txt) (quitWith a (some .quit) rs w pre app txt) := by
+    QuitRel (quitWith a none rs w pre app txt) (quitWith a (some .quit) rs w pre app txt) := by
   simp [QuitRel, quitWith, quitCmd]
 
-theorem quitRel_lost (a : Args) (rs : List Bytes) (w : Bytes) (c wo : Bool) : QuitRel a (lost a rs w c wo) (lost a rs w c wo) := by
+theorem quitRel_lost (a : Args) (rs : List Bytes) (w : Bytes) (c wo : Bool) : QuitRel (lost a rs w c wo) (lost a rs w c wo) := by
   simp [QuitRel, lost]
 
 theorem data_quit (a : Args) (rs : List Bytes) (w : Bytes) (bother : Bool) (txt : Bytes) (fs : List Bytes) :
-    QuitRel a (dataPhase a none rs w bother txt fs) (dataPhase a (some .quit) rs w bother txt fs) := by
+    QuitRel (dataPhase a none rs w bother txt fs) (dataPhase a (some .quit) rs w bother txt fs) := by
   unfold dataPhase
   simp only [Option.some.injEq, reduceCtorEq, if_false]
   repeat' split
   all_goals first | exact quitRel_quit _ _ _ _ _ _ | exact quitRel_lost _ _ _ _ _ | simp_all [QuitRel]
 
 theorem rcpt_quit (a : Args) (more : List Bytes) : ∀ (i : Nat) (rs : List Bytes) (w : Bytes) (bother : Bool) (txt : Bytes) (fs : List Bytes),
-    QuitRel a (rcptLoop a none i more rs w bother txt fs) (rcptLoop a (some .quit) i more rs w bother txt fs) := by
+    QuitRel (rcptLoop a none i more rs w bother txt fs) (rcptLoop a (some .quit) i more rs w bother txt fs) := by
   induction more with
   | nil => intro i rs w bother txt fs; simp only [rcptLoop]; exact data_quit a rs w bother txt fs
   | cons r more ih =>
@@ -555,7 +551,7 @@ theorem rcpt_quit (a : Args) (more : List Bytes) : ∀ (i : Nat) (rs : List Byte
         · exact ih _ _ _ _ _ _
         · exact ih _ _ _ _ _ _
 
-theorem run_quit (a : Args) (fs : List Bytes) : QuitRel a (run a none fs) (run a (some .quit) fs) := by
+theorem run_quit (a : Args) (fs : List Bytes) : QuitRel (run a none fs) (run a (some .quit) fs) := by
   unfold run
   simp only [Option.some.injEq, reduceCtorEq, if_false]
   repeat' split
@@ -582,36 +578,10 @@ theorem expect_quit (s : AScript) : expect { s with wfail := some .quit } = expe
   unfold expect
   simp only [Option.some.injEq, reduceCtorEq, if_false, expRcpt_quit]
 
-/-- **every script**: the recipient letters are those of the rules; the message report has the class of
-the rules — except when the QUIT write fails after a decided verdict: then the code prints the
-unflagged "connection died" -/
-theorem run_all (a : Args) (wf : Option WPoint) (fs : List Bytes) :
-    (obsOf (run a wf fs)).rl = (expect (abstrF a wf fs)).rl ∧
-    (verdictOK (expect (abstrF a wf fs)).v (obsOf (run a wf fs)) = true ∨
-     (wf = some .quit ∧ (expect (abstrF a wf fs)).v.decided = true ∧ (run a wf fs).msg = droppedRep a.host false)) := by
-  by_cases hq : wf = some .quit
-  · subst hq
-    have g0 := run_good a none (by simp) fs
-    obtain ⟨h1, h2⟩ := run_quit a fs
-    have he : expect (abstrF a (some .quit) fs) = expect (abstrF a none fs) := expect_quit (abstrF a none fs)
-    rw [he]
-    by_cases hqq : (run a none fs).quit = true
-    · simp only [hqq, if_true] at h2
-      refine ⟨?_, Or.inr ⟨rfl, g0.2.2 hqq, h2.1⟩⟩
-      rw [← g0.2.1]; simp [obsOf, h1]
-    · simp only [hqq] at h2
-      simp only [Bool.false_eq_true, if_false] at h2
-      rw [h2]; exact ⟨g0.2.1, Or.inl g0.1⟩
-  · have g := run_good a wf hq fs
-    exact ⟨g.2.1, Or.inl g.1⟩
-
 theorem kSound_run (a : Args) (wf : Option WPoint) (fs : List Bytes) :
-    kSound (abstrF a wf fs) (obsOf (run a wf fs)) = true := by
-  obtain ⟨h1, h2 | ⟨_, _, h3⟩⟩ := run_all a wf fs
-  · exact kSound_of_good _ _ ⟨h2, h1⟩
-  · have : (obsOf (run a wf fs)).ml = cZ := by simp [obsOf, h3, headB_dropped]
-    have hne : (cZ != cK) = true := by decide
-    unfold kSound; rw [this, hne]; rfl
+    kSound (abstrF a wf fs) (obsOf (run a wf fs)) = true :=
+  have g := run_good a wf fs
+  kSound_of_good _ _ ⟨g.1, g.2.1⟩
 
 /-! ### the RCPT phase of the rules on a script of the expected shape -/
 
